@@ -338,6 +338,12 @@ def nontrivial(c):
 
 
 # -------------------------------------------------------------------------------- fingerprints and object graphs
+# the library-managed 'index' entries are left out of the argument fingerprints (routines such as bootstrap_testset renumber the
+# 'index' of their argument by design); they are part of the labelled content compared around the in-place operation
+# 'sort_by_sorted', where the index labels have been made different from the positions first
+WITH_INDEX = [False]
+
+
 def dig(b):
     return int(hashlib.md5(b).hexdigest()[:15], 16)
 
@@ -350,7 +356,7 @@ def digest(x, depth=0):
         body = np.ascontiguousarray(x).tobytes() if x.dtype.kind != 'O' else repr(x.tolist()).encode()
         return dig(repr((x.shape, x.dtype.kind)).encode() + body)
     if isinstance(x, dict):
-        return dig(repr(sorted((str(k), digest(v, depth + 1)) for k, v in x.items() if k != 'index')).encode())
+        return dig(repr(sorted((str(k), digest(v, depth + 1)) for k, v in x.items() if k != 'index' or WITH_INDEX[0])).encode())
     if isinstance(x, (list, tuple)):
         return dig(repr((type(x).__name__, [digest(v, depth + 1) for v in x])).encode())
     if isinstance(x, RDMs):
@@ -455,7 +461,7 @@ class Graph:
 def mutators(o):
     name = type(o).__name__
     if name == 'RDMs':
-        return ['array_write', 'reorder', 'sort_by', 'append']
+        return ['array_write', 'reorder', 'sort_by', 'append', 'sort_by_sorted']
     return ['array_write', 'sort_by']
 
 
@@ -480,6 +486,17 @@ def apply_mut(o, mut):
                 return None
             nk = len(o.pattern_descriptors)
             o.sort_by(index=list(o.pattern_descriptors['index'])[::-1])
+            return ('attrs', 2, nk)
+        if mut == 'sort_by_sorted':
+            # sorting by a descriptor that is already in order (the permutation applied is the identity)
+            if o.n_cond < 2:
+                return None
+            keys = [k for k, v in o.pattern_descriptors.items() if k != 'index'
+                    and list(np.argsort(v, kind='stable')) == list(range(o.n_cond))]
+            if not keys:
+                return None
+            nk = len(o.pattern_descriptors)
+            o.sort_by(**{keys[0]: 'alpha'})
             return ('attrs', 2, nk)
         if mut == 'append':
             nk = len(o.rdm_descriptors)
@@ -600,7 +617,7 @@ def run_in(c, tmp):
             for direction in ('result', 'source'):
                 tgt0 = r0 if direction == 'result' else s0
                 for mut in mutators(tgt0):
-                    if n_pairs >= 24:
+                    if n_pairs >= 30:
                         break
                     # fresh call for every experiment
                     try:
@@ -620,14 +637,22 @@ def run_in(c, tmp):
                     t_data, t_dicts = g.add_obj(tgt)
                     o_data, o_dicts = g.add_obj(oth)
                     cells = dict(g.cells)
+                    WITH_INDEX[0] = False
+                    if mut == 'sort_by_sorted' and type(tgt).__name__ == 'RDMs':
+                        # index labels that differ from the positions, as after subset_pattern (a user-level write)
+                        tgt.pattern_descriptors['index'] = [10 + 2 * i for i in range(tgt.n_cond)]
+                        WITH_INDEX[0] = True
                     fp_before = digest(oth)
                     try:
                         desc = apply_mut(tgt, mut)
                     except Exception as e:
+                        WITH_INDEX[0] = False
                         continue
                     if desc is None:
+                        WITH_INDEX[0] = False
                         continue
                     fp_after = digest(oth)
+                    WITH_INDEX[0] = False
                     n_pairs += 1
                     fresh = g.fresh(desc[2]) if desc[0] == 'rebind' else []
                     o['pairs'].append(dict(direction=direction, mut=mut, desc=list(desc), fresh=fresh, target=[t_data, t_dicts], other=[o_data, o_dicts],
